@@ -1,6 +1,7 @@
 package verifh
 
 import (
+	"encoding/hex"
 	"os"
 	"path/filepath"
 	"testing"
@@ -49,7 +50,7 @@ func mkCDImage(root string, im cdImg, seed byte) {
 func TestC17(t *testing.T) {
 	r := NewReporter(t)
 	defer r.Done()
-	r.Rule("7 raw sector sizes x {ISO9660, PLAYSTATION, no} signature x image sizes around the 2 MiB / 848 MiB detection window x (start,count) incl. count 0, start != count, ranges crossing EOF and start sectors at byte offsets around 2^32 and up to 2^32-1 sectors, incl. a sparse image of 4 GiB + 3 MiB; two-image histories on one connection and CLOSEFILE; transfer buffer sizes {1,3,512,1000,1500,2047,2048,2049,4096,unpooled}; distinct by (image(s), request sequence)")
+	r.Rule("7 raw sector sizes x {ISO9660, PLAYSTATION, no} signature x image sizes around the 2 MiB / 848 MiB detection window x (start,count) incl. count 0, start != count, ranges crossing EOF and start sectors at byte offsets around 2^32 and up to 2^32-1 sectors, incl. a sparse image of 4 GiB + 3 MiB; encrypted images whose plaintext is a CD image (sector size recognised through the decrypting view); two-image histories on one connection and CLOSEFILE; transfer buffer sizes {1,3,512,1000,1500,2047,2048,2049,4096,unpooled}; distinct by (image(s), request sequence)")
 	w := newWorld(t, "srv/root")
 	defer w.Cleanup()
 	sizes := []int64{0x200000 - 1, 0x200000, 3 << 20, 0x35000000, 0x35000000 + 1}
@@ -185,6 +186,51 @@ func TestC17(t *testing.T) {
 		if r.TimeUp() {
 			break
 		}
+	}
+	// sector reads through a decrypting view: the signature that decides the sector size exists only in the
+	// plaintext (sector 16 lies in an encrypted region), so the size must be recognised from what the client sees
+	if r.Mine(len(imgs) + 2) {
+		for vi, sect := range []int{2048, 2336} {
+			nsect := 1100
+			plain := patBytes(byte(40+vi), 0, nsect*2048)
+			pairs := []uint32{0, 2, uint32(nsect - 2), uint32(nsect - 1)}
+			copy(plain, regionTable(pairs))
+			copy(plain[24+16*sect+1:], "CD001")
+			plain[24+16*sect] = 1
+			key := c10Keys[vi]
+			name := sprintf("/PS3ISO/cdenc%d.iso", sect)
+			writeFileAbs(filepath.Join(w.Root, name), buildEncImage(plain, pairs, key), baseTime)
+			writeFileAbs(filepath.Join(w.Root, sprintf("/PS3ISO/cdenc%d.dkey", sect)), []byte(hex.EncodeToString(key)), baseTime)
+			view := memObj("redump-cd", refDecryptImage(buildEncImage(plain, pairs, key), pairs, key, false), nil)
+			view.cdSector = detectCDSector(view)
+			r.Outcome(sprintf("decrypted-view-detected-sector-%d", view.cdSector))
+			for _, reqs := range [][]Req{
+				{mkReq(opOpenFile, name), cdReq(1, 3), cdReq(16, 1), rdcReq(100, 50), cdReq(0, 1)},
+				{mkReq(opOpenFile, name), cdReq(uint32(nsect*2048/sect)-2, 3)},
+				{mkReq(opOpenFile, name), rdReq(24+16*uint64(sect), 8), cdReq(15, 2)},
+			} {
+				m := newModel(w.Root, false)
+				m.objFor = func(m *Model, clean string) (*roObj, bool, bool) {
+					if clean == name {
+						return view, true, true
+					}
+					return nil, false, false
+				}
+				res := runSession(t, SrvOpts{Root: w.Root}, m, reqs, Delivery{})
+				r.Transition(int64(len(res.Steps)))
+				r.Eval(1)
+				key := sprintf("decrypting view sector %d|%v", sect, reqStrings(reqs))
+				r.State(key)
+				r.Nontrivial(key)
+				for _, st := range res.Steps {
+					r.Outcome(st.Class)
+				}
+				if res.Why != "" {
+					r.Violation("C17:decrypting-view:"+res.WhySig, sprintf("encrypted image whose plaintext is a CD image with %d-byte sectors: %s", sect, res.Why), map[string]any{"image": name, "requests": reqs, "steps": res.Steps})
+				}
+			}
+		}
+		os.RemoveAll(filepath.Join(w.Root, "PS3ISO"))
 	}
 	// a (sparse) image larger than 4 GiB: sectors whose byte offset is around and beyond 2^32 really exist
 	if r.Mine(len(imgs) + 1) {
